@@ -84,7 +84,23 @@ def fingerprint(obj, out: Optional[Dict[str, Entry]] = None, path: str = "", see
         for name, v in sorted(obj.__dict__.items()):
             if name in ("_parameters", "_buffers", "_modules", "_non_persistent_buffers_set", "training", "_update_hook_handle") or name.startswith("_backward") or name.endswith("_hooks") or name.endswith("_hooks_with_kwargs") or name.endswith("_hooks_always_called") or name in ("_state_dict_pre_hooks", "_load_state_dict_pre_hooks", "_is_full_backward_hook", "_compiled_call_impl", "_forward_pre_hooks_with_kwargs"):
                 continue
+            if name.startswith("_") and name not in ("_resize", "_transpose"):
+                # private attributes are implementation detail (a memo slot that a getter fills, a container that a
+                # refactoring renamed): the state they may hold -- domain and conditioning -- is read through the public
+                # getters below; the two private constructor options of the unchanged code base are kept by name
+                continue
             fingerprint(v, out, f"{path}A.{name}", seen)
+        if hasattr(obj, "grid") and hasattr(obj, "condition") and hasattr(obj, "update"):
+            try:
+                fingerprint(obj.grid(), out, f"{path}A.grid()", seen)
+            except Exception as e:  # noqa: BLE001
+                out[f"{path}A.grid()"] = (("raises", type(e).__name__), None, None)
+            try:
+                c_args, c_kwargs = obj.condition()
+                fingerprint(tuple(c_args), out, f"{path}A.condition().args", seen)
+                fingerprint(dict(c_kwargs), out, f"{path}A.condition().kwargs", seen)
+            except Exception as e:  # noqa: BLE001
+                out[f"{path}A.condition()"] = (("raises", type(e).__name__), None, None)
         # the hook container is shared between shallow copies by design (documented in SpatialTransform.__copy__)
         out[path + "<hooks>"] = (("hooks",), str(len(obj._forward_pre_hooks)), frozenset([("H", id(obj._forward_pre_hooks))]))
         out[path + "<hook-handle>"] = ((getattr(obj, "_update_hook_handle", None) is None,), None, None)
